@@ -228,4 +228,45 @@ theorem step_err {env : Env} {net : Net} {op : Op} {f : Fail} (hi : PInv net.pee
     obtain ⟨a, pid, p, hs, hc⟩ := tickPeers_err hi.addr ht
     exact Or.inr ⟨a, .tick, by simp [projOp], by simp [refStep, hs, hc]⟩
 
+/-! ### `accept` of a pending peer succeeds -/
+
+theorem cannedToken_eq : cannedToken = TOKEN_NONE := by decide
+
+theorem feed_canned_unconnected (env : Env) (c : Conn6.Conn) (hc : c.state = .unconnected) (tok : Bool)
+    (hd : tok = true → tokenRandom env.draws ≠ none) :
+    ∃ t, Conn6.feed env c (fun _ => some (connectPacket tok)) =
+      .ok (⟨.pending t, Timeout.after env.now sendUs⟩, { sent := [.control 0 t .connectAccept] })
+      ∧ (tok = false → t = none) ∧ (tok = true → t = tokenRandom env.draws) := by
+  obtain ⟨st, sd⟩ := c
+  simp only at hc
+  subst hc
+  cases tok with
+  | false =>
+    refine ⟨none, ?_, by simp, by simp⟩
+    simp [Conn6.feed, Conn6.State.token?, connectPacket, Conn6.Packet.tokenAck?, Conn6.feedBody,
+      Conn6.tickAction, Conn6.sendControl, Conn6.controlPacket, Conn6.emit, Conn6.Packet.wireSize, maxPacketSize,
+      Tw.Gen.Conn.P6.HEADER_SIZE, Tw.Gen.Conn.P6.MAX_PACKETSIZE]
+  | true =>
+    cases hr : tokenRandom env.draws with
+    | none => exact absurd hr (hd rfl)
+    | some nt =>
+      refine ⟨some nt, ?_, by simp, by simp⟩
+      simp [Conn6.feed, Conn6.State.token?, connectPacket, Conn6.Packet.tokenAck?, Conn6.feedBody,
+        Conn6.tickAction, Conn6.sendControl, Conn6.controlPacket, Conn6.emit, Conn6.Packet.wireSize, maxPacketSize,
+        cannedToken_eq, hr, Tw.Gen.Conn.P6.HEADER_SIZE, Tw.Gen.Conn.P6.MAX_PACKETSIZE, Tw.Gen.Conn.P6.TOKEN_SIZE]
+
+theorem accept_pending {env : Env} {net : Net} {pid : Nat} {p : Peer} (hi : PInv net.peers)
+    (hl : lookup net.peers pid = some p) (hp : p.conn.state = .unconnected)
+    (hd : p.token = true → tokenRandom env.draws ≠ none) :
+    ∃ net' t, step env net (.accept pid) =
+        .ok (net', .unit, { sent := [(p.addr, Packet.control 0 t .connectAccept)] }) ∧
+      slot net'.peers p.addr = some (pid, { p with conn := ⟨.pending t, Timeout.after env.now sendUs⟩ }) ∧
+      (p.token = false → t = none) ∧ (p.token = true → t = tokenRandom env.draws) := by
+  obtain ⟨t, hf, h1, h2⟩ := feed_canned_unconnected env p.conn hp p.token hd
+  refine ⟨{ net with peers := update net.peers pid { p with conn := ⟨.pending t, Timeout.after env.now sendUs⟩ } }, t, ?_, ?_, h1, h2⟩
+  · simp only [step, accept, modifyPeer, hl, peerAccept, hp, hf]
+    simp [liftOut]
+  · simp only [slot_update hi hl (p' := { p with conn := ⟨.pending t, Timeout.after env.now sendUs⟩ }) rfl]
+    simp
+
 end Tw.Net
